@@ -128,14 +128,16 @@ func TestVerif_C04E2E(t *testing.T) {
 				r.conn, r.derr = c.TCP(addr)
 				if r.derr == nil {
 					r.conn.SetDeadline(time.Now().Add(3 * time.Second))
-					if _, werr := r.conn.Write(payload); werr != nil {
-						r.derr = werr
-					}
+					_, werr := r.conn.Write(payload)
 					rb := make([]byte, len(reply))
 					n, rerr := io.ReadFull(r.conn, rb)
 					r.replySame = rerr == nil && string(rb[:n]) == string(reply)
-					if rerr != nil && r.derr == nil {
-						r.derr = rerr // with fast open the response (and a dial error) surfaces at the first Read
+					// with fast open the response (and a dial error) surfaces at the first Read; a Write that loses the race
+					// against the server's rejection fails with "canceled by remote", which says nothing about the frame
+					if rerr != nil {
+						r.derr = rerr
+					} else if werr != nil {
+						r.derr = werr
 					}
 				}
 				resc <- r
